@@ -37,6 +37,9 @@ type Judge struct {
 type ReplayReq struct {
 	Steps []map[string]any `json:"steps"`
 	Judge Judge            `json:"judge"`
+	// Alt: a second script for the same candidate, tried when the first does not reproduce (e.g. the same
+	// message with its lists lengthened so that a buffer really has to grow)
+	Alt *ReplayReq `json:"alt,omitempty"`
 }
 
 type RunResult struct {
@@ -551,7 +554,14 @@ func judge(j Judge, res []RunResult, runErr error) (confirmed bool, observed any
 		}
 		return r.Err != nil, map[string]any{"err": r.Err}
 	case "alloc_gt":
-		return r.Alloc > j.Bound, map[string]any{"alloc": r.Alloc, "bound": j.Bound}
+		// the largest allocation of any step of the script (only decode / primitive steps measure one)
+		var mx uint64
+		for i := range res {
+			if res[i].Alloc > mx {
+				mx = res[i].Alloc
+			}
+		}
+		return mx > j.Bound, map[string]any{"alloc": mx, "bound": j.Bound}
 	case "ret_ne":
 		if r.Panic != nil {
 			return true, map[string]any{"panic": *r.Panic}
@@ -655,6 +665,13 @@ func confirmViolations(d *Driver, viols []Violation) {
 				ok  bool
 				obs any
 			}{ok, obs}
+		}
+		if !ok && v.Replay.Alt != nil && v.Replay.Judge.Note != "race" {
+			res, rerr := runRunner(useBin, v.Replay.Alt.Steps, 120*time.Second, 8<<20)
+			if ok2, obs2 := judge(v.Replay.Alt.Judge, res, rerr); ok2 {
+				ok, obs = ok2, obs2
+				v.Replay = v.Replay.Alt
+			}
 		}
 		v.Observed = obs
 		if ok {
@@ -777,4 +794,27 @@ func runtimeFatal(stderr string) string {
 		}
 	}
 	return ""
+}
+
+// inflate: the same message value with every list lengthened to n elements (cycling through its elements) -
+// a concrete amplification of a solver model for effects that need a large encoding to show natively.
+func inflate(v any, n int) any {
+	switch x := v.(type) {
+	case map[string]any:
+		out := map[string]any{}
+		for k, e := range x {
+			out[k] = inflate(e, n)
+		}
+		return out
+	case []any:
+		if len(x) == 0 {
+			return x
+		}
+		out := make([]any, 0, n)
+		for i := 0; i < n || i < len(x); i++ {
+			out = append(out, inflate(x[i%len(x)], n))
+		}
+		return out
+	}
+	return v
 }
